@@ -96,3 +96,63 @@ let () =
       String.concat "/" (List.rev !outs) ^ "|" ^
       String.concat "," (List.map string_of_z [s.p_step; s.p_size; s.p_pre; s.p_idx; s.p_count; s.p_cols; s.p_tmux])
     | _ -> "?args")
+
+(* ---- the session (filter.options.TerminalColumns + the live bar) ---- *)
+let c20_tick s : tick =
+  match String.split_on_char ':' s with
+  | ["N"; n] -> TkNum (c20_zs n)
+  | ["M"; nm] -> TkName (c20_runes_of nm)
+  | ["Z"; z] -> TkSize (c20_zs z)
+  | ["S"; z; now; t; sp; e] -> TkStep (c20_zs z, c20_zs now, c20_runes_of t, c20_runes_of sp, c20_runes_of e)
+  | ["D"; now; t; sp; e] -> TkDone (c20_zs now, c20_runes_of t, c20_runes_of sp, c20_runes_of e)
+  | ["P"; z] -> TkPre (c20_zs z)
+  | ["U"; b] -> TkPause (bool_of b)
+  | _ -> failwith ("tick " ^ s)
+
+let c20_sevent s : sevent =
+  match String.split_on_char '~' s with
+  | ["R"; c] -> SeResize (c20_zs c)
+  | ["B"; q; pane] -> SeStart (bool_of q, c20_zs pane)
+  | ["T"; t] -> SeTick (c20_tick t)
+  | ["O"] -> SePromptOpen
+  | ["K"] -> SePromptClose
+  | ["E"] -> SeEnd
+  | _ -> failwith ("sevent " ^ s)
+
+let c20_sess_state (s : session) =
+  string_of_z s.s_cols ^ ";" ^
+  (match s.s_bar with
+   | None -> "nobar"
+   | Some b -> String.concat "," (List.map string_of_z [b.p_step; b.p_size; b.p_pre; b.p_idx; b.p_count; b.p_cols; b.p_tmux]))
+
+let () =
+  (* a session history, event by event; a panic ends it as it does in the implementation *)
+  register "psess" (function [cols; evs; wtab; swtab] ->
+      let evs = List.map c20_sevent (split_on '/' evs) in
+      let w = c20_w wtab and sw = c20_sw swtab in
+      let st = ref (sess_init (c20_zs cols)) in
+      let outs = ref [] in
+      let stop = ref false in
+      List.iter (fun e ->
+          if not !stop then begin
+            let (st', ws) = sess_step_cur w sw mdr_exact e !st in
+            st := st';
+            let parts = List.map (fun x -> match swr_bytes x with
+                | None -> stop := true; "panic"
+                | Some b -> c20_of_runes b) ws in
+            outs := (if parts = [] then "." else String.concat "+" parts) :: !outs
+          end) evs;
+      String.concat "/" (List.rev !outs) ^ "|" ^ c20_sess_state !st
+    | _ -> "?args");
+  (* the layout width of the live bar after each marked point of an end-to-end session:
+     events R~c, B~quiet~pane, E, O, K and the marker L (a line was drawn: report the bar's width) *)
+  register "psess_widths" (function [cols; evs] ->
+      let w = (fun _ -> nat_of_int 1) and sw = (fun l -> nat_of_int (List.length l)) in
+      let st = ref (sess_init (c20_zs cols)) in
+      let outs = ref [] in
+      List.iter (fun e ->
+          if e = "L" then
+            outs := (match (!st).s_bar with None -> "nobar" | Some b -> string_of_z b.p_cols) :: !outs
+          else st := fst (sess_step_cur w sw mdr_exact (c20_sevent e) !st)) (split_on '/' evs);
+      if !outs = [] then "-" else String.concat "," (List.rev !outs)
+    | _ -> "?args")
